@@ -174,7 +174,7 @@ def _attempts(axioms, hyps, goal, timeout_ms, use_cvc5, hint=None):
     full = None
     for key in order:
         if key == "cvc5":
-            if not use_cvc5:
+            if not use_cvc5 or os.environ.get("PVC_NO_CVC5"):
                 continue
             s = z3.SimpleSolver()
             for a in axioms:
